@@ -209,6 +209,8 @@ func runC03(w *World) {
 			waitPhase(1)
 			rng := rand.New(rand.NewSource(int64(op.N[0])))
 			Delay(op.N[4])
+			w.StatsDuring(rng.Intn(40)) // the operator's monitoring polls the statistics while connections come and go
+			w.StatsDuring(rng.Intn(200))
 			ip := fmt.Sprintf("10.66.%d.%d", op.C/200, 1+op.C%200)
 			if op.N[3] == 0 {
 				ip = "10.66.0.1" // several hostile peers share one address (rate limiter path)
